@@ -339,7 +339,20 @@ fn check_docs(prop: &str, docs: &[Vec<u8>]) -> Option<String> {
             if let Some(e) = cmp_order(&v, &infer(&occ), "") {
                 return Some(e);
             }
-            render_order(&root, &infer(&occ))
+            if let Some(e) = render_order(&root, &infer(&occ)) {
+                return Some(e);
+            }
+            let sch = infer(&occ);
+            fn names_ok(s: &oracle::S) -> bool {
+                let a: Vec<String> = s.attrs.iter().map(|(_, a)| local(a)).collect();
+                let k: Vec<String> = s.kids.iter().map(|(_, _, k)| local(&k.name)).collect();
+                let distinct = |v: &Vec<String>| { let mut d = v.clone(); d.sort(); let n = d.len(); d.dedup(); d.len() == n };
+                distinct(&a) && distinct(&k) && !a.iter().any(|x| x.starts_with("xmlns")) && s.kids.iter().all(|(_, _, c)| names_ok(c))
+            }
+            if names_ok(&sch) {
+                return render_preorder(&root.to_serde_struct(&Options::quick_xml_de()), &sch);
+            }
+            None
         }
         "C16" => {
             if let Some(e) = uniq_deep(&v, "") {
@@ -423,6 +436,61 @@ fn render_order(root: &Element<String>, s: &oracle::S) -> Option<String> {
     n2.sort();
     if n1 != n2 {
         return Some(format!("switching the sort option changes the set of structs: {:?} vs {:?}", n1, n2));
+    }
+    None
+}
+
+
+/// C09: struct definitions follow a pre-order walk, children in first-appearance order (unsorted option), and inside
+/// every struct the fields are attributes, text, children - each group in first-appearance order.  Plain names only.
+fn render_preorder(out: &str, s: &oracle::S) -> Option<String> {
+    let structs = parse_rendered_full(out);
+    if structs.is_empty() {
+        return None;
+    }
+    fn strip<'a>(t: &'a str, w: &str) -> Option<&'a str> {
+        t.strip_prefix(w).and_then(|r| r.strip_prefix('<')).and_then(|r| r.strip_suffix('>'))
+    }
+    fn walk(structs: &Vec<(String, Vec<(String, String, String)>)>, sname: &str, s: &oracle::S, path: &str, order: &mut Vec<String>) -> Result<(), Option<String>> {
+        let p = format!("{}/{}", path, s.name);
+        let def = structs.iter().find(|x| x.0 == sname).ok_or(None)?;
+        order.push(sname.to_string());
+        let got: Vec<String> = def.1.iter().map(|f| f.2.clone()).collect();
+        let mut want: Vec<String> = s.attrs.iter().map(|(_, a)| format!("@{}", local(a))).collect();
+        if s.text {
+            want.push("$text".into());
+        }
+        want.extend(s.kids.iter().map(|(_, _, k)| local(&k.name)));
+        let (mut a, mut b) = (got.clone(), want.clone());
+        a.sort();
+        b.sort();
+        if a != b {
+            return Err(None); // cannot be read back field by field: no verdict
+        }
+        if got != want {
+            return Err(Some(format!("{p}: fields of struct {sname} are {:?}, expected attributes, text, children in first-appearance order {:?}", got, want)));
+        }
+        for (_, _, k) in &s.kids {
+            let f = def.1.iter().find(|f| f.2 == local(&k.name)).ok_or(None)?;
+            let ty = f.1.as_str();
+            let t1 = strip(ty, "Option").unwrap_or(ty);
+            let inner = strip(t1, "Vec").unwrap_or(t1);
+            if inner != "String" {
+                walk(structs, inner, k, &p, order)?;
+            }
+        }
+        Ok(())
+    }
+    let mut order = Vec::new();
+    let first = structs[0].0.clone();
+    match walk(&structs, &first, s, "", &mut order) {
+        Err(Some(e)) => return Some(e),
+        Err(None) => return None,
+        Ok(()) => {}
+    }
+    let actual: Vec<String> = structs.iter().map(|x| x.0.clone()).collect();
+    if actual.len() == order.len() && actual != order {
+        return Some(format!("struct definitions appear in the order {:?}, a pre-order walk in first-appearance order gives {:?}", actual, order));
     }
     None
 }
